@@ -3,8 +3,8 @@ package main
 // Facts for C03 (cell storage / merge rectangles). The Lean model
 // XlModel.Grid is *defined over* these tables:
 //   cellInRangeConds  comparisons of cell.go:cellInRange           -> Rect.contains
-//   isOverlapCorners  the corner tests of cell.go:isOverlap         -> isOverlap
-//   mergeCellSwaps    the conditional swaps of merge.go:mergeCell   -> mergeCell (bounding box)
+//   isOverlapConds    the interval comparisons of cell.go:isOverlap -> isOverlap
+//   mergeCellBox      the min/max elements of merge.go:mergeCell    -> bbox
 //   rowsGuardOp/colsGuardOp   densification guards of sheet.go:prepareSheetXML / fillColumns
 //   setterSkel        per setter: calls prepareCell / prepareCellStyle / removeFormula, clears IS
 //   type tags written by the setters and the cellTypes table read by GetCellType
@@ -161,83 +161,89 @@ func init() {
 		}
 		w.WriteString("]\n\n")
 
-		// 2. isOverlap
-		w.WriteString("/-! cell.go:isOverlap — (which rect supplies the corner: 1 or 2, x index, y index); the corner is tested against the other rect -/\n")
-		w.WriteString("def isOverlapCorners : List (Nat × Nat × Nat) := [")
+		// 2. isOverlap: a conjunction of comparisons between coordinates of the two rectangles
+		w.WriteString("/-! cell.go:isOverlap — (rect of the lhs: 1|2, lhs index, operator, rhs index); the rhs is a coordinate of the other rect -/\n")
+		w.WriteString("def isOverlapConds : List (Nat × Nat × String × Nat) := [")
 		if e := c03Return(funcDecl("", "isOverlap")); e == nil {
 			fail("isOverlap: single return expression")
 		} else {
-			for i, leaf := range c03Flatten(e, token.LOR) {
+			for i, leaf := range c03Flatten(e, token.LAND) {
 				okLeaf := false
-				if c, ok := leaf.(*ast.CallExpr); ok && len(c.Args) == 2 {
-					if id, ok := c.Fun.(*ast.Ident); ok && id.Name == "cellInRange" {
-						if cl, ok := c.Args[0].(*ast.CompositeLit); ok && len(cl.Elts) == 2 {
-							other, ok3 := c.Args[1].(*ast.Ident)
-							for _, base := range []string{"rect1", "rect2"} {
-								x, ok1 := c03IndexOf(cl.Elts[0], base)
-								y, ok2 := c03IndexOf(cl.Elts[1], base)
-								if ok1 && ok2 && ok3 && other.Name != base && (other.Name == "rect1" || other.Name == "rect2") {
-									if i > 0 {
-										w.WriteString(", ")
-									}
-									fmt.Fprintf(w, "(%s, %d, %d)", base[4:], x, y)
-									okLeaf = true
-								}
+				if b, ok := leaf.(*ast.BinaryExpr); ok {
+					for k, bases := range [][2]string{{"rect1", "rect2"}, {"rect2", "rect1"}} {
+						x, ok1 := c03IndexOf(b.X, bases[0])
+						y, ok2 := c03IndexOf(b.Y, bases[1])
+						if ok1 && ok2 {
+							if i > 0 {
+								w.WriteString(", ")
 							}
+							fmt.Fprintf(w, "(%d, %d, %s, %d)", k+1, x, leanStr(b.Op.String()), y)
+							okLeaf = true
 						}
 					}
 				}
 				if !okLeaf {
-					fail("isOverlap: leaf %d is not cellInRange([]int{rectA[i], rectA[j]}, rectB)", i)
+					fail("isOverlap: leaf %d is not rectA[i] OP rectB[j]", i)
 				}
 			}
 		}
 		w.WriteString("]\n\n")
 
-		// 3. mergeCell swaps
-		w.WriteString("/-! merge.go:mergeCell — `if rect1[i] OP rect2[i] { swap }` in source order -/\n")
-		w.WriteString("def mergeCellSwaps : List (Nat × String) := [")
+		// 3. mergeCell: rect := []int{min|max(rect1[i], rect2[i]), ...}
+		w.WriteString("/-! merge.go:mergeCell — the elements of the bounding rectangle: (builtin, index) -/\n")
+		w.WriteString("def mergeCellBox : List (String × Nat) := [")
 		if fd := funcDecl("", "mergeCell"); fd == nil || fd.Body == nil {
 			fail("mergeCell: function")
 		} else {
 			n := 0
-			for _, st := range fd.Body.List {
-				ifs, ok := st.(*ast.IfStmt)
-				if !ok {
-					continue
+			ast.Inspect(fd.Body, func(nd ast.Node) bool {
+				cl, ok := nd.(*ast.CompositeLit)
+				if !ok || n > 0 {
+					return true
 				}
-				b, ok := ifs.Cond.(*ast.BinaryExpr)
-				if !ok {
-					fail("mergeCell: if condition is not a comparison")
-					continue
+				if at, ok := cl.Type.(*ast.ArrayType); !ok || at.Len != nil {
+					return true
 				}
-				i, ok1 := c03IndexOf(b.X, "rect1")
-				j, ok2 := c03IndexOf(b.Y, "rect2")
-				swap := false
-				if len(ifs.Body.List) == 1 {
-					if as, ok := ifs.Body.List[0].(*ast.AssignStmt); ok && len(as.Lhs) == 2 && len(as.Rhs) == 2 {
-						l0, a0 := c03IndexOf(as.Lhs[0], "rect1")
-						l1, a1 := c03IndexOf(as.Lhs[1], "rect2")
-						r0, b0 := c03IndexOf(as.Rhs[0], "rect2")
-						r1, b1 := c03IndexOf(as.Rhs[1], "rect1")
-						swap = a0 && a1 && b0 && b1 && l0 == i && l1 == i && r0 == i && r1 == i
+				for _, el := range cl.Elts {
+					call, ok := el.(*ast.CallExpr)
+					if !ok || len(call.Args) != 2 {
+						fail("mergeCell: element %d of the rectangle literal is not min/max(rect1[i], rect2[i])", n)
+						continue
 					}
+					fn, ok0 := call.Fun.(*ast.Ident)
+					a, ok1 := c03IndexOf(call.Args[0], "rect1")
+					b, ok2 := c03IndexOf(call.Args[1], "rect2")
+					if !ok0 || !ok1 || !ok2 || a != b || (fn.Name != "min" && fn.Name != "max") {
+						fail("mergeCell: element %d of the rectangle literal is not min/max(rect1[i], rect2[i])", n)
+						continue
+					}
+					if n > 0 {
+						w.WriteString(", ")
+					}
+					fmt.Fprintf(w, "(%s, %d)", leanStr(fn.Name), a)
+					n++
 				}
-				if !ok1 || !ok2 || i != j || !swap {
-					fail("mergeCell: statement %d is not `if rect1[i] OP rect2[i] { rect1[i], rect2[i] = rect2[i], rect1[i] }`", n)
-					continue
-				}
-				if n > 0 {
-					w.WriteString(", ")
-				}
-				fmt.Fprintf(w, "(%d, %s)", i, leanStr(b.Op.String()))
-				n++
-			}
+				return false
+			})
 			if n == 0 {
-				fail("mergeCell: no conditional swaps found")
+				fail("mergeCell: bounding rectangle literal")
 			}
 		}
 		w.WriteString("]\n\n")
+		// 3b. the normalisation compares rectangles (isOverlap) and no longer allocates a cell matrix
+		w.WriteString("/-! merge.go:flatMergedCells — calls isOverlap / mergeCell, allocates no matrix (no `make` of a slice of slices) -/\n")
+		if fd := funcDecl("", "flatMergedCells"); fd == nil || fd.Body == nil {
+			fail("flatMergedCells: function")
+		} else {
+			fmt.Fprintf(w, "def flatCallsIsOverlap : Bool := %s\ndef flatCallsMergeCell : Bool := %s\n", c03Bool(c03Calls(fd, "isOverlap")), c03Bool(c03Calls(fd, "mergeCell")))
+		}
+		matrix := false
+		if fd := funcDecl("File", "mergeOverlapCells"); fd == nil || fd.Body == nil {
+			fail("mergeOverlapCells: function")
+		} else {
+			matrix = c03Calls(fd, "make") || c03Calls(fd, "overlapRange")
+		}
+		fmt.Fprintf(w, "def normaliseAllocatesMatrix : Bool := %s\n\n", c03Bool(matrix))
 
 		// 4. densification guards
 		w.WriteString("/-! sheet.go: guards of the two densification loops (`rowCount OP row`, `cellCount OP col`) -/\n")
